@@ -17,13 +17,6 @@ import LC.Proofs.ExactRange
 
 namespace LC.V2Match
 
-/-- the bytes hashed for a q-gram of token ids -/
-def gram (wordOf : Nat → Text) (g : List Nat) : Text := g.flatMap (fun i => wordOf i ++ [32])
-
-/-- distinct q-grams have distinct checksums -/
-def HashInj (crc : Text → Nat) (wordOf : Nat → Text) (q : Nat) : Prop :=
-  ∀ g h : List Nat, g.length = q → h.length = q → crc (gram wordOf g) = crc (gram wordOf h) → g = h
-
 theorem exact_range_proposed {C : Type} (N : NumEnv C) (hsf : ∀ n, N.scaleFloor n ≤ n)
     (crc : Text → Nat) (wordOf : Nat → Text) (pre D post : List Nat)
     (hq : 0 < N.q) (hD : N.q ≤ D.length) (hinj : HashInj crc wordOf N.q)
